@@ -349,20 +349,19 @@ func ruleC01(c *Ctx) {
 					continue
 				}
 				switch fa.Name {
-				case "Assertions":
-					if _, isApp := e.Val.(*AppendV); isApp {
-						appends = append(appends, e)
-					} else if isEmptySliceValT(t, e.Val) && len(appends) == 0 {
-						resetA = e
-					} else {
-						c.bad("C01-R2", fname, "store to Response.Assertions ["+label+"]", c.P.InstrPos(e.Instr), "Assertions overwritten with "+ap(e.Val))
-					}
 				case "EncryptedAssertions":
 					if isEmptySliceValT(t, e.Val) {
 						resetE = e
 					} else {
 						c.bad("C01-R2", fname, "store to Response.EncryptedAssertions ["+label+"]", c.P.InstrPos(e.Instr), "EncryptedAssertions overwritten with "+ap(e.Val))
 					}
+				}
+			}
+			{
+				apps, rs, other := assertionListStores(t, obj, d.Ev.Seq)
+				appends, resetA = apps, rs
+				for _, e := range other {
+					c.bad("C01-R2", fname, "store to Response.Assertions ["+label+"]", c.P.InstrPos(e.Instr), "Assertions overwritten with "+ap(e.Val))
 				}
 			}
 			switch {
@@ -451,7 +450,7 @@ func checkAppend(c *Ctx, t *Terminal, fname, label string, obj Val, ae *Event, h
 	pos := c.P.InstrPos(ae.Instr)
 	app := ae.Val.(*AppendV)
 	// appended to the field itself
-	if !strings.HasSuffix(apLvalOfLoad(app.S), ".Assertions") {
+	if _, isAcc := accumulatorAppends(t, ae.Val); !strings.HasSuffix(apLvalOfLoad(app.S), ".Assertions") && !isAcc {
 		c.bad("C01-R2", fname, "append target ["+label+"]", pos, "append does not extend the returned Response's own Assertions: "+ap(app.S))
 	}
 	if len(app.Elems) != 1 || app.Spread {
@@ -753,22 +752,17 @@ func ctxWiring(c *Ctx, rule string) {
 		s := shortName(n)
 		return s == "dsig.NewDefaultValidationContext"
 	}
-	n := scanCalls(c.P, c.P.LibFns, isCtor, func(s callSite) {
-		if c.P.withinOnly(s.Caller, allowNames("(*SAMLServiceProvider).validationContext")) {
-			c.ok(rule+"/who-may-construct", shortFn(s.Caller), "call "+shortName(s.Callee), c.P.InstrPos(s.Instr), "inside validationContext()")
-		} else {
-			c.bad(rule+"/who-may-construct", shortFn(s.Caller), "call "+shortName(s.Callee), c.P.InstrPos(s.Instr), "a signature validation context is built outside validationContext(): store / clock wiring is not guaranteed")
-		}
-	})
+	// every construction site is visited below through the Validate call that uses its result; here: count them,
+	// reject literal construction (no default clock / store wiring at all), and keep the positive control alive
+	n := scanCalls(c.P, c.P.LibFns, isCtor, func(s callSite) {})
 	c.count(rule+"/who-may-construct", n)
 	c.floor(rule+"/who-may-construct", 1)
-	// composite literals / new of dsig.ValidationContext
 	for _, f := range c.P.LibFns {
 		for _, b := range f.Blocks {
 			for _, in := range b.Instrs {
 				if a, ok := in.(*ssa.Alloc); ok {
 					if strings.HasSuffix(typeStr(a.Type()), "dsig.ValidationContext") || strings.HasSuffix(typeStr(a.Type()), "goxmldsig.ValidationContext") {
-						c.bad(rule+"/who-may-construct", shortFn(f), "literal dsig.ValidationContext", c.P.InstrPos(a), "validation context constructed by literal outside validationContext()")
+						c.bad(rule+"/who-may-construct", shortFn(f), "literal dsig.ValidationContext", c.P.InstrPos(a), "validation context constructed by literal instead of NewDefaultValidationContext(sp.IDPCertificateStore)")
 					}
 				}
 			}
@@ -780,36 +774,74 @@ func ctxWiring(c *Ctx, rule string) {
 	if fired == 0 {
 		c.bad(rule+"/who-may-construct", "controls/ownctx", "positive control", "-", "matcher did not flag the control that builds its own validation context")
 	}
-	// kernel: validationContext
-	res := c.kernel("(*SAMLServiceProvider).validationContext", "*")
-	if res != nil {
+	// at the use: on every path of the three inbound validators, each dsig Validate call has as receiver a context
+	// built on that path by NewDefaultValidationContext(sp.IDPCertificateStore) whose Clock was last stored from
+	// sp.Clock — whatever helper functions or helper types the construction goes through
+	seen := map[ssa.Instruction]bool{}
+	uses := 0
+	for _, spec := range []inboundSpec{ssoSpec, loRespSpec, loReqSpec} {
+		res := c.kernel(spec.Entry, inboundInline...)
+		if res == nil {
+			continue
+		}
+		fname := shortFn(res.Root)
 		for _, t := range res.Terms {
-			pos := c.P.InstrPos(t.Instr)
-			v := t.Vals[0]
-			want := "dsig.NewDefaultValidationContext(SP.IDPCertificateStore)"
-			c.check(ap(v) == want, rule, shortFn(res.Root), "context over sp.IDPCertificateStore", pos, want, "validation context is "+ap(v)+", want "+want)
-			clk, ok := t.finalField(v, "Clock")
-			c.check(ok && ap(clk) == "SP.Clock", rule, shortFn(res.Root), "ctx.Clock = sp.Clock", pos, "clock injected", "ctx.Clock is "+ap(clk)+" (unset => wall clock decides certificate validity)")
+			for _, e := range t.St.events {
+				if e.Kind != EvCall || shortName(e.Callee) != dsigValidate {
+					continue
+				}
+				seen[e.Instr] = true
+				uses++
+				pos := c.P.InstrPos(e.Instr)
+				recv := e.Args[0]
+				want := "dsig.NewDefaultValidationContext(SP.IDPCertificateStore)"
+				site := shortFn(e.Fn)
+				if ap(recv) == want {
+					c.ok(rule, site, "context over sp.IDPCertificateStore", pos, want)
+				} else {
+					o := c.bad(rule, site, "context over sp.IDPCertificateStore", pos, "in "+fname+" a signature is checked with "+ap(recv)+", want a context built in this call by "+want+" (a cached / filtered / foreign store changes which certificates vouch)")
+					o.Path = t.pathDesc(c.P)
+				}
+				var clk Val
+				for _, s := range t.St.events {
+					if s.Seq >= e.Seq {
+						break
+					}
+					if s.Kind == EvStore && isFieldAddrOf(s.Addr, recv, "Clock") {
+						clk = s.Val
+					}
+				}
+				c.check(clk != nil && ap(clk) == "SP.Clock", rule, site, "ctx.Clock = sp.Clock", pos, "clock injected before the check", "ctx.Clock is "+apOrNone(clk)+" when the signature is checked (unset => wall clock decides certificate validity)")
+			}
 		}
 	}
-	// receivers of Validate
+	c.count(rule+"/validate-uses", uses)
+	c.floor(rule+"/validate-uses", 4)
+	// every static Validate call site of the library was met on some kernel path, or is unreachable code
 	isValidate := func(n string) bool { return shortName(n) == dsigValidate }
 	m := scanCalls(c.P, c.P.LibFns, isValidate, func(s callSite) {
 		if s.Instr == nil {
 			c.bad(rule+"/receivers", shortFn(s.Caller), "method value of Validate", "-", "Validate taken as a value")
 			return
 		}
-		recv := s.Instr.Common().Args[0]
-		ok := false
-		if call, isCall := recv.(*ssa.Call); isCall {
-			if f := call.Common().StaticCallee(); f != nil && shortFn(f) == "(*SAMLServiceProvider).validationContext" {
-				ok = true
-			}
+		switch {
+		case seen[s.Instr]:
+			c.ok(rule+"/receivers", shortFn(s.Caller), "receiver of dsig Validate", c.P.InstrPos(s.Instr), "met on the paths of an inbound validator (receiver checked there)")
+		case c.P.unreachable(s.Caller):
+			c.ok(rule+"/receivers", shortFn(s.Caller), "receiver of dsig Validate", c.P.InstrPos(s.Instr), "unreachable: unexported and never called")
+		default:
+			c.bad(rule+"/receivers", shortFn(s.Caller), "receiver of dsig Validate", c.P.InstrPos(s.Instr), "a signature check outside the paths of the three inbound validators: its context is not shown to be built over sp.IDPCertificateStore / sp.Clock")
 		}
-		c.check(ok, rule+"/receivers", shortFn(s.Caller), "receiver of dsig Validate", c.P.InstrPos(s.Instr), "receiver is sp.validationContext()", "signature checked with a context that does not come from sp.validationContext()")
 	})
 	c.count(rule+"/receivers", m)
-	c.floor(rule+"/receivers", 2)
+	c.floor(rule+"/receivers", 1)
+}
+
+func apOrNone(v Val) string {
+	if v == nil {
+		return "never stored"
+	}
+	return ap(v)
 }
 
 // ---------------------------------------------------------------- C04
@@ -835,6 +867,7 @@ func ruleC04(c *Ctx) {
 		"(*SAMLServiceProvider).RetrieveAssertionInfo":             true,
 	}
 	n := 0
+	perField := map[string]int{}
 	for _, f := range c.P.LibFns {
 		for _, b := range f.Blocks {
 			for _, in := range b.Instrs {
@@ -854,6 +887,7 @@ func ruleC04(c *Ctx) {
 				for _, ff := range flagFields {
 					if fname == ff.Field && c.P.Named(ff.Type) != nil && types.Identical(owner, c.P.Named(ff.Type)) {
 						n++
+						perField[ff.Type+"."+ff.Field]++
 						var tops []string
 						for k := range allowedTop {
 							tops = append(tops, k)
@@ -865,7 +899,11 @@ func ruleC04(c *Ctx) {
 		}
 	}
 	c.count("C04-R1/writers", n)
-	c.floor("C04-R1/writers", 7)
+	c.floor("C04-R1/writers", 5)
+	// every indicator has a writer (a field nobody sets could not be compared with anything in R2)
+	for _, ff := range flagFields {
+		c.check(perField[ff.Type+"."+ff.Field] > 0, "C04-R1", ff.Type, "indicator "+ff.Field+" has a writer", "-", fmt.Sprintf("%d store(s)", perField[ff.Type+"."+ff.Field]), "no store to "+ff.Type+"."+ff.Field+" found in library scope")
+	}
 	// R2
 	for _, spec := range []inboundSpec{ssoSpec, loRespSpec, loReqSpec} {
 		res := c.kernel(spec.Entry, inboundInline...)
@@ -942,18 +980,10 @@ func appendProvenance(c *Ctx, rule string) {
 				hdr = d
 			}
 		}
-		for _, e := range t.St.events {
-			if e.Kind != EvStore {
-				continue
-			}
-			fa, ok := e.Addr.(*FieldAddrV)
-			if !ok || fa.X.Key() != obj.Key() || fa.Name != "Assertions" {
-				continue
-			}
-			if _, isApp := e.Val.(*AppendV); isApp {
-				n++
-				checkAppendFor(c, rule, t, fname, label, obj, e, hdr)
-			}
+		apps, _, _ := assertionListStores(t, obj, 0)
+		for _, e := range apps {
+			n++
+			checkAppendFor(c, rule, t, fname, label, obj, e, hdr)
 		}
 	}
 	c.count(rule+"/appends", n)
@@ -1192,4 +1222,85 @@ func encryptedDirectChild(c *Ctx, rule string) {
 	}
 	c.count(rule+"/encrypted-handlers", n)
 	c.floor(rule+"/encrypted-handlers", 1)
+}
+
+// accumulatorCell: the local variable an append extends when the verified assertions are collected in a local and
+// published once — S is the load (or loop-carried value) of a local cell whose every store on the path is either an
+// empty slice or an append to the cell's own content. Returns the append events into that cell.
+func accumulatorAppends(t *Terminal, v Val) ([]*Event, bool) {
+	app, ok := v.(*AppendV)
+	if !ok {
+		return nil, false
+	}
+	same := func(addr Val, s Val) bool {
+		switch x := s.(type) {
+		case *LoadV:
+			return x.Addr.Key() == addr.Key()
+		case *UnknownV:
+			return x.Why == "loop-carried "+lvalKey(addr)
+		}
+		return false
+	}
+	var cell Val
+	for _, e := range t.St.events {
+		if e.Kind != EvStore {
+			continue
+		}
+		if a, isAlloc := e.Addr.(*AllocV); isAlloc && same(a, app.S) {
+			cell = a
+		}
+	}
+	if cell == nil {
+		return nil, false
+	}
+	var out []*Event
+	inits := 0
+	for _, e := range t.St.events {
+		if e.Kind != EvStore || e.Addr.Key() != cell.Key() {
+			continue
+		}
+		if isEmptySliceValT(t, e.Val) {
+			inits++
+			continue
+		}
+		a2, ok := e.Val.(*AppendV)
+		if !ok || !same(cell, a2.S) {
+			return nil, false
+		}
+		out = append(out, e)
+	}
+	return out, inits > 0 && len(out) > 0
+}
+
+// assertionListStores classifies the stores to obj.Assertions after seq: appends (to the field itself, or into a
+// local accumulator that is then published into the field), resets to empty, and anything else.
+func assertionListStores(t *Terminal, obj Val, seq int) (appends []*Event, reset *Event, other []*Event) {
+	for _, e := range t.St.events {
+		if e.Kind != EvStore || e.Seq < seq {
+			continue
+		}
+		fa, ok := e.Addr.(*FieldAddrV)
+		if !ok || fa.X.Key() != obj.Key() || fa.Name != "Assertions" {
+			continue
+		}
+		if app, isApp := e.Val.(*AppendV); isApp {
+			if strings.HasSuffix(apLvalOfLoad(app.S), ".Assertions") {
+				appends = append(appends, e)
+			} else if evs, ok := accumulatorAppends(t, e.Val); ok {
+				appends = append(appends, evs...)
+				if reset == nil {
+					reset = e // the field is replaced wholesale by a list that started empty
+				}
+			} else {
+				other = append(other, e)
+			}
+			continue
+		}
+		if isEmptySliceValT(t, e.Val) && len(appends) == 0 {
+			reset = e
+			continue
+		}
+		other = append(other, e)
+	}
+	return
 }
